@@ -427,9 +427,19 @@ static void gen_action(struct vf_rng *r)
 		break;
 	}
 	case 14:                                      /* noise: parity errors, stray bytes */
-		ff_put(&ff[field], 0x20 + (int)vf_below(r, 0x5f), 0x20 + (int)vf_below(r, 0x5f));
-		if (ff[field].wr > ff[field].rd) ff[field].b[ff[field].wr - 1][vf_below(r, 2)] ^= 0x80;
-		ff_put(&ff[field], (int)vf_below(r, 0x80), (int)vf_below(r, 0x80));
+		{
+			/* never '<' as the SECOND character of a field 1 pair: on T2 it ends an ITV
+			 * trigger string, for which the library frees the caption mutex between
+			 * the two characters of the pair without sending an event - a state
+			 * thread A cannot snapshot (see design note, limits) */
+			int a1 = 0x20 + (int)vf_below(r, 0x5f), b1 = 0x20 + (int)vf_below(r, 0x5f);
+			int a2 = (int)vf_below(r, 0x80), b2 = (int)vf_below(r, 0x80);
+			if (field == 0 && b1 == '<') b1 = '=';
+			if (field == 0 && b2 == '<') b2 = '=';
+			ff_put(&ff[field], a1, b1);
+			if (ff[field].wr > ff[field].rd) ff[field].b[ff[field].wr - 1][vf_below(r, 2)] ^= 0x80;
+			ff_put(&ff[field], a2, b2);
+		}
 		break;
 	case 15:
 		if (vf_chance(r, 1, 2)) {                 /* ITV trigger on T2 (field 1, channel 2 text): TRIGGER event */
@@ -601,7 +611,11 @@ static void *a_decoder_thread(void *arg)
 			gen_action(r);
 			if (vf_chance(r, 1, 2)) gen_action(r);
 		}
-		/* Teletext / VPS first or last, at most one caption line per call */
+		/* at most one caption line per call, and it is the LAST line of the call:
+		 * a Teletext header of another network (or a VPS line) behind it could
+		 * reset the caption pages inside the same vbi_decode() call, after the
+		 * caption mutex was free for a moment, and thread A would never see
+		 * the state in between (it can look only in handlers and after the call) */
 		if (vf_chance(r, 1, (unsigned)T.ttx_den))
 			n += ttx_lines(sl, 3, r, f);
 		if (vf_chance(r, 1, 10)) {
@@ -618,7 +632,6 @@ static void *a_decoder_thread(void *arg)
 			s->data[1] = ff[field].b[ff[field].rd][1];
 			A.capt[f].f = (uint8_t)(field + 1); A.capt[f].b[0] = s->data[0]; A.capt[f].b[1] = s->data[1];
 			ff[field].rd++;
-			if (n > 1 && vf_chance(r, 1, 2)) { vbi_sliced tmp = sl[0]; sl[0] = sl[n - 1]; sl[n - 1] = tmp; }
 		}
 		/* time: 1/30 s per frame; now and then a gap (dropped frames), a
 		 * repeated or a backward time stamp: each starts the 40 frame
